@@ -41,7 +41,7 @@ open MagpyVerif.Gen.Setters
 collection operations (`add` validates before it links: C11 `add_rejected_changes_nothing`) -/
 def raisingCallees : List String :=
   ["check_format_input_vector", "check_format_input_scalar", "check_format_input_vertices",
-   "check_format_input_cylinder_segment", "check_format_input_orientation", "validate_field_func",
+   "check_format_input_cylinder_segment", "check_format_input_orientation", "check_format_input_obj", "validate_field_func",
    "self._validate_style", "format_obj_input", "self.add", "inp.add", "self._parent.remove"]
 
 /-- calls that change object state (`self._update_src_and_sens` recomputes the typed views from `_children`: calling it again
@@ -56,9 +56,60 @@ def quietCallees : List String :=
   ["isinstance", "getattr", "range", "list", "any", "pad_slice_path", "R.from_quat", "np.squeeze", "np.linalg.norm",
    "self._orientation.as_quat", "old_ori_pad.inv", "new_children.append", "warnings.warn"]
 
+mutual
+def calleesS : Stmt → List String
+  | .assign _ _ cs => cs
+  | .assignElem _ cs => cs
+  | .save _ _ => []
+  | .restore _ _ => []
+  | .expr cs => cs
+  | .raise _ => []
+  | .ret cs => cs
+  | .ite cs thn els => cs ++ calleesL thn ++ calleesL els
+  | .loop cs body => cs ++ calleesL body
+  | .tryExcept body _ h => calleesL body ++ calleesL h
+  | .inline _ cs body => cs ++ calleesL body
+  | .skip _ => []
+def calleesL : List Stmt → List String
+  | [] => []
+  | s :: r => calleesS s ++ calleesL r
+end
+
+mutual
+/-- does the statement tree contain any write of object state (an attribute assignment or a state-changing call), anywhere -/
+def writesS : Stmt → Bool
+  | .assign _ isAttr cs => isAttr || cs.any mutatingCallees.contains
+  | .assignElem _ _ => true
+  | .save _ _ => false
+  | .restore _ _ => true
+  | .expr cs => cs.any mutatingCallees.contains
+  | .raise _ => false
+  | .ret cs => cs.any mutatingCallees.contains
+  | .ite cs thn els => cs.any mutatingCallees.contains || writesL thn || writesL els
+  | .loop cs body => cs.any mutatingCallees.contains || writesL body
+  | .tryExcept body _ h => writesL body || writesL h
+  | .inline _ cs body => cs.any mutatingCallees.contains || writesL body
+  | .skip _ => false
+def writesL : List Stmt → Bool
+  | [] => false
+  | s :: r => writesS s || writesL r
+end
+
+/-- a module-level helper (name, regenerated body) that can only reject: its body writes no object state anywhere, and every call in it is a
+known rejecting or quiet function or the helper itself (a recursive call then writes nothing either) -/
+def helperRaisesOnly (h : String × List Stmt) : Bool :=
+  !writesL h.2 && (calleesL h.2).all fun c => c == h.1 || raisingCallees.contains c || quietCallees.contains c
+
+/-- the regenerated module-level helpers (`Gen.Setters.helpers`) that can only reject: a call of one is a plain point of rejection -/
+def raisingHelper (c : String) : Bool :=
+  MagpyVerif.Gen.Setters.helpers.any fun h => h.1 == c && helperRaisesOnly h
+
+/-- can a call of `c` reject the assigned value -/
+def canReject (c : String) : Bool := raisingCallees.contains c || raisingHelper c
+
 /-- every call name of a setter must be known to the analysis -/
 def classified (c : String) : Bool :=
-  raisingCallees.contains c || mutatingCallees.contains c || quietCallees.contains c
+  canReject c || mutatingCallees.contains c || quietCallees.contains c
 
 /-- a write of an exception handler, in source order -/
 inductive HW where
@@ -97,7 +148,7 @@ def Ev.isWrite : Ev → Bool
 
 /-- a rejecting call is entered before it changes anything -/
 def calleeEvs (c : String) : List Ev :=
-  (if raisingCallees.contains c then [Ev.mayRaise c] else []) ++ (if mutatingCallees.contains c then [Ev.mutate c] else [])
+  (if canReject c then [Ev.mayRaise c] else []) ++ (if mutatingCallees.contains c then [Ev.mutate c] else [])
 
 def callsEvs (cs : List String) : List Ev := cs.flatMap calleeEvs
 
@@ -125,25 +176,6 @@ def hwsS : Stmt → List HW
 def hwsL : List Stmt → List HW
   | [] => []
   | s :: r => hwsS s ++ hwsL r
-end
-
-mutual
-def calleesS : Stmt → List String
-  | .assign _ _ cs => cs
-  | .assignElem _ cs => cs
-  | .save _ _ => []
-  | .restore _ _ => []
-  | .expr cs => cs
-  | .raise _ => []
-  | .ret cs => cs
-  | .ite cs thn els => cs ++ calleesL thn ++ calleesL els
-  | .loop cs body => cs ++ calleesL body
-  | .tryExcept body _ h => calleesL body ++ calleesL h
-  | .inline _ cs body => cs ++ calleesL body
-  | .skip _ => []
-def calleesL : List Stmt → List String
-  | [] => []
-  | s :: r => calleesS s ++ calleesL r
 end
 
 mutual
@@ -175,7 +207,7 @@ def goodHandler (excType : String) (h : List Stmt) : Bool :=
   (match h.getLast? with
    | some (.raise exc) => exc == ""
    | _ => false) &&
-  straightL h.dropLast && (calleesL h).all (fun c => !raisingCallees.contains c) && hwOrdered (hwsL h)
+  straightL h.dropLast && (calleesL h).all (fun c => !canReject c && classified c) && hwOrdered (hwsL h)
 
 /-- inside a `try` with a restoring handler a point of rejection becomes a point of rejection under restore -/
 def underRestore (h : List HW) : Ev → Ev
@@ -537,5 +569,90 @@ def resolveCtor (rows : List (String × String × String × String × String)) :
     match rows.find? fun r => r.1 == cls && r.2.1 == param with
     | Option.none => ("lost", "", "")
     | some (_, _, kind, target, via) => if kind == "forward" then resolveCtor rows fuel via target else (kind, target, via)
+
+/-! ## 10. the values assigned to `Collection.children` and `Collection.collections` (after repo fix 045b334) -/
+
+inductive ObjKind where
+  | source | sensor | collection
+  /-- the collection that is being assigned to, or a collection that contains it -/
+  | selfOrAncestor
+  deriving Repr, DecidableEq
+
+/-- what can be assigned: a Magpylib object (with its identity), something that is no Magpylib object (a number, `None`, a string, a dict, …),
+or a list / tuple -/
+inductive CollVal where
+  | obj (id : Nat) (k : ObjKind)
+  | junk
+  | seq (xs : List CollVal)
+  deriving Repr
+
+def asObj : CollVal → Option (Nat × ObjKind)
+  | .obj i k => some (i, k)
+  | _ => Option.none
+
+/-- `check_format_input_obj(children, allow=…, recursive=False, typechecks=True)`: every entry must be a Magpylib object -/
+def allObjs : List CollVal → Option (List (Nat × ObjKind))
+  | [] => some []
+  | x :: r =>
+    match asObj x, allObjs r with
+    | some o, some os => some (o :: os)
+    | _, _ => Option.none
+
+def hasDup : List Nat → Bool
+  | [] => false
+  | x :: r => r.contains x || hasDup r
+
+/-- `add`: `if len(children) == 1 and isinstance(children[0], (list, tuple)): children = children[0]` -/
+def unwrapArgs : List CollVal → List CollVal
+  | [.seq ys] => ys
+  | args => args
+
+/-- the checks of `add` on its (unwrapped) arguments: every entry must be a Magpylib object (typechecks); no collection may be the collection
+itself or contain it; no object twice (identity); every failure is MagpylibBadUserInput -/
+def collAddCore (args : List CollVal) : Except Err (List (Nat × ObjKind)) :=
+  match allObjs args with
+  | Option.none => .error .badUserInput
+  | some os =>
+    if os.any (fun o => o.2 == .selfOrAncestor) then .error .badUserInput
+    else if hasDup (os.map (·.1)) then .error .badUserInput
+    else .ok os
+
+/-- `self.add(*children, override_parent=True)` -/
+def collAdd (args : List CollVal) : Except Err (List (Nat × ObjKind)) := collAddCore (unwrapArgs args)
+
+/-- `Collection.children` setter: `if not isinstance(children, (list, tuple)): children = [children]`, then `_replace_children(all, children)`;
+the value of an accepted assignment is the new list of children -/
+def childrenSetter (v : CollVal) : Except Err (List (Nat × ObjKind)) :=
+  collAdd (match v with
+    | .seq xs => xs
+    | x => [x])
+
+mutual
+/-- the entries of a nested list, flattened (what `_refuse_non_objects` visits and what `format_obj_input(…, allow="collections")` returns
+before it filters) -/
+def leavesC : CollVal → List CollVal
+  | .seq xs => leavesCL xs
+  | .obj i k => [.obj i k]
+  | .junk => [.junk]
+def leavesCL : List CollVal → List CollVal
+  | [] => []
+  | x :: r => leavesC x ++ leavesCL r
+end
+
+def isJunk : CollVal → Bool
+  | .junk => true
+  | _ => false
+
+def asCollection : CollVal → Option (Nat × ObjKind)
+  | .obj i k => if k == .collection || k == .selfOrAncestor then some (i, k) else Option.none
+  | _ => Option.none
+
+/-- `Collection.collections` setter: `_refuse_non_objects(v)` (every entry, also in nested lists, must be a Magpylib object),
+`format_obj_input(v, allow="collections")` (flattens the lists and KEEPS ONLY the collections: sources and sensors among the entries are still
+dropped without a word), then `_replace_children(current collections, those)`; the value of an accepted assignment is the new list of
+sub-collections -/
+def collectionsSetter (v : CollVal) : Except Err (List (Nat × ObjKind)) :=
+  if (leavesC v).any isJunk then .error .badUserInput
+  else collAdd (((leavesC v).filterMap asCollection).map fun o => .obj o.1 o.2)
 
 end MagpyVerif.Valid
